@@ -3,10 +3,10 @@
    expressions as written in the source) to primitive data, through the SAME definitions the
    theorems are about (Model.Conv, Model.Quantity at the instances of Model.Storages).
    Executable Gallina only. *)
-From Coq Require Import ZArith QArith List Bool.
+From Coq Require Import ZArith QArith List Bool String.
 From Flocq Require Import Core BinarySingleNaN.
 From UomV Require Import Model.Tables Model.Conv Model.FloatM Model.FloatOps Model.Exact
-  Model.Quantity Model.Storages Model.Duration.
+  Model.Quantity Model.Storages Model.Duration Model.Text.
 Import ListNotations.
 Open Scope Z_scope.
 
@@ -175,4 +175,37 @@ Definition z_run (r : req Z) : list Z :=
   | RCoef e => []
   | RToDur _ _ _ _ _ _ => []
   | RFromDur _ _ _ _ _ _ _ => []
+  end.
+
+(* ------------------------------------------------------------------ text (C11, C12) *)
+Inductive treq :=
+| TFmt (description : bool) (abbr sing plur shown : list Z) (is_one : bool)
+| TDebug (shown : list Z) (abbrs : list (list Z)) (d : list Z)
+| TParse (units : list (list Z * list Z * list Z)) (s : list Z) (value_ok : bool).
+
+Definition tx (l : list Z) : text := map Z.to_N l.
+Definition xt (l : text) : list Z := map Z.of_N l.
+Definition mk_unit (l : list Z * list Z * list Z) : unit_decl :=
+  {| u_name := EmptyString; u_coef := ELit 1 0; u_const := None;
+     u_abbr := tx (fst (fst l)); u_sing := tx (snd (fst l)); u_plur := tx (snd l) |}.
+
+Fixpoint index_of (f : unit_decl -> bool) (us : list unit_decl) (i : Z) : option Z :=
+  match us with [] => None | u :: r => if f u then Some i else index_of f r (i + 1) end.
+
+Definition text_run (r : treq) : list Z :=
+  match r with
+  | TFmt desc a sg pl shown one =>
+      xt (fmt_quantity (if desc then Description else Abbreviation) (mk_unit (a, sg, pl)) (tx shown) one)
+  | TDebug shown abbrs d => xt (debug_quantity (tx shown) (map tx abbrs) d)
+  | TParse units s value_ok =>
+      let us := map mk_unit units in
+      match parse_quantity (fun _ : text => if value_ok then Some tt else None) us (tx s) with
+      | inl NoSeparator => [0] | inl ValueParseError => [1] | inl UnknownUnit => [2]
+      | inr (u, _) =>
+          (* the matched unit is the first one matching the trimmed label *)
+          match split1 (tx s) [] with
+          | Some (_, b) => match index_of (unit_matches (trim b)) us 0 with Some i => [3; i] | None => [2] end
+          | None => [0]
+          end
+      end
   end.
